@@ -104,7 +104,12 @@ def register(R):
         k = to_int_term(d.hi) - to_int_term(d.lo)
         return {
             'window_invariant_kept': window_inv(c),
-            'returns_the_next_bytes_of_the_window': z3.And(B(d.base == 'src'), to_int_term(d.lo) == start + ar0, k == zmin(want, ln - pos0)),
+            # the next bytes of the window: as many as asked for (bounded by window and file) when the underlying file
+            # gives full reads; otherwise (raw stream, short reads) a non-empty prefix of them, empty only at the end
+            'returns_the_next_bytes_of_the_window': z3.And(
+                B(d.base == 'src'), to_int_term(d.lo) == start + ar0, k <= zmin(want, ln - pos0),
+                z3.Implies(zmin(want, ln - pos0) > 0, k > 0),
+                z3.Implies(c.new.st.ghost[('stream', c.oldf('_fileobj').label)]['full_reads'], k == zmin(want, ln - pos0))),
             'never_a_byte_outside_the_window': z3.Or(k == 0, z3.And(to_int_term(d.lo) >= start, to_int_term(d.hi) <= start + size)),
             'position_advances_by_what_was_returned': c.newf('_amount_read') == ar0 + k,
             # C09: progress reported == change of the bounded position (0 when reporting is disabled)
